@@ -389,7 +389,7 @@ def run(ctx):
         t_phase.append(time.time())
         phases[name] = round(t_phase[-1] - t_phase[-2], 1)
     # ---- (d) code -> spec: record first (the recorder does not depend on TLC)
-    ntr, nedit, maxlines = (70, 60, 40) if quick else (1500, 1500, 60)
+    ntr, nedit, maxlines = (70, 60, 40) if quick else (1000, 1000, 60)
     traces = []
     for i in range(ntr):
         _cls, lines, _ = cc.gen_wellformed(rng, rng.choice([5, 10, 20, maxlines]))
@@ -419,7 +419,7 @@ def run(ctx):
     else:
         jobs += [("text", cfg("text", lines=5, blocks=2, body=2, budget=2, invs=TEXT_INVS), W, {"CASE"}),
                  ("text7", cfg("text", lines=7, blocks=2, body=2, budget=1, invs=TEXT_INVS), W, {"CASE"}),
-                 ("edit", cfg("edit", classes="= " + SUBSET, lines=3, blocks=1, body=1, budget=1, edits=3, invs=EDIT_INVS, lead=0), W, {"CASE"}),
+                 ("edit", cfg("edit", classes='= {"Junk", "EndNoDetails", "EndOneSpace"}', lines=3, blocks=1, body=1, budget=1, edits=3, invs=EDIT_INVS, lead=0), W, {"CASE"}),
                  ("edit4", cfg("edit", classes="= {}", lines=2, blocks=1, body=1, budget=0, edits=4, invs=EDIT_INVS), W, {"CASE"})]
     jobs += [("hist", cc.hist_cfg(3, 1), 2 if quick else 6, {"CASE"})] + ([] if quick else [("hist4", cc.hist_cfg(4, 0), 6, {"CASE"})])
     res = {}
@@ -472,7 +472,7 @@ def run(ctx):
     ctx.extra["lts_edges_replayed"] = n_edges
     ctx.extra["model_constants"] = {"classes": len(cc.ALL_CLASSES), "AEAs": [True, False],
                                     "text": "MaxLines 6, Budget 1" if quick else "MaxLines 5 / Budget 2 and MaxLines 7 / Budget 1",
-                                    "edit": "MaxLines 3, Budget 1, 4 classes, MaxEdits 2" if quick else "MaxLines 3, Budget 1, 7 classes, MaxEdits 3 and MaxLines 2, Budget 0, MaxEdits 4"}
+                                    "edit": "MaxLines 3, Budget 1, 4 classes, MaxEdits 2" if quick else "MaxLines 3, Budget 1, 3 classes, MaxEdits 3 and MaxLines 2, Budget 0, MaxEdits 4"}
     e = step_edges[len(step_edges) // 3]
     ctx.sample("lts edge: " + json.dumps(e, separators=(",", ":")))
 
